@@ -29,6 +29,9 @@ HAZARD_CRASH = {
 }
 
 
+GEN_ONLY_FOR = {"OpTypes.lean": {"C02"}, "MemberSigs.lean": {"C02"}}
+
+
 def log(*a):
     print("[check]", *a, file=sys.stderr, flush=True)
 
@@ -206,6 +209,13 @@ class Check:
             log("generated tables changed:", changed)
             self.stats["gen_changed"] = changed
         for e in errors:
+            # an extractor that no longer recognises its source construct breaks the tie of the properties whose theorems /
+            # driver answers use that table; the tables of extract/optypes.py are used by C02's obligations (Proofs/C02G) only —
+            # the other checks keep running against the last good table, which none of their answers depends on
+            only = next((props for name, props in GEN_ONLY_FOR.items() if e.startswith(name + ":")), None)
+            if only is not None and self.pid not in only:
+                self.stats.setdefault("extractor_errors_of_other_properties", []).append(e[:300])
+                continue
             self.broken_ties.append("extractor: " + e)
 
     def step_proofs(self):
